@@ -72,6 +72,12 @@ pub enum Step {
     Panic,
     /// Drop a captured owner of the mortal object (the last-owner drop then happens inside this job)
     DropMortal,
+    /// (future bodies) call the own waker without suspending: a legal spurious wake that lands while the job is executing
+    WakeOnly,
+    /// (future bodies) keep a clone of the current waker in the run context (an event source that holds on to an old waker)
+    StashWaker,
+    /// call every stashed waker: stale wake-ups arriving while this body is executing
+    FireStashed,
 }
 
 #[derive(Clone, Debug)]
@@ -246,7 +252,7 @@ impl Program {
             h = hcomb(h, op.kind.code() * 1000 + op.disp.code() * 10 + op.obj as u64);
             for s in &op.body {
                 h = hcomb(h, match s { Step::Touch => 1, Step::Yield => 2, Step::Gate(g) => 100 + *g as u64, Step::Nest(o) => 1000 + *o as u64,
-                                       Step::Hold(x) => 50 + *x as u64, Step::Panic => 3, Step::DropMortal => 4 });
+                                       Step::Hold(x) => 50 + *x as u64, Step::Panic => 3, Step::DropMortal => 4, Step::WakeOnly => 5, Step::StashWaker => 6, Step::FireStashed => 7 });
             }
         }
         for t in &self.threads {
